@@ -97,6 +97,7 @@ theorem incr_good (s : Cache) (E : Externals) (now : Int) (k : PyVal) (delta : I
       · right; exact ⟨rfl, rfl, hfailP⟩
       · rename_i s1 c hst
         obtain ⟨hP1, hfile⟩ := store_PI hst hP0
+        rw [regCreated_zero s1 c.file hP1.depth]
         left
         refine ⟨rfl, ?_⟩
         simp only [List.append_nil]
@@ -114,6 +115,7 @@ theorem incr_good (s : Cache) (E : Externals) (now : Int) (k : PyVal) (delta : I
         · rename_i s1 c hst
           obtain ⟨hP1, hfile⟩ := store_PI hst hP0
           have hr1 : r ∈ s1.rows := by rw [(store_keep hst).1]; exact selKey_mem hr
+          rw [regCreated_zero s1 c.file hP1.depth]
           left
           refine ⟨rfl, ?_⟩
           have := cullW_PI (s1.updRow r.rowid now c) now [r.file] ?_
